@@ -169,6 +169,209 @@ pub fn guard<T>(f: impl FnOnce() -> T) -> Result<T, PanicInfo> {
 }
 
 // ---------------------------------------------------------------------------
+// Hard crashes (abort, SIGSEGV, ...) of the code under test: the batch runs in a
+// child process; a signal handler names the run that was executing, the
+// supervising parent turns that into a replay file and a VIOLATION line.
+
+pub const CRASH_EXIT: i32 = 70;
+const MAX_SLOTS: usize = 64;
+#[allow(clippy::declare_interior_mutable_const)]
+const SLOT_INIT: AtomicU64 = AtomicU64::new(0);
+/// per worker: (run seed, run index + 1); index 0 = no run in progress
+static CRASH_SLOT_SEED: [AtomicU64; MAX_SLOTS] = [SLOT_INIT; MAX_SLOTS];
+static CRASH_SLOT_INDEX: [AtomicU64; MAX_SLOTS] = [SLOT_INIT; MAX_SLOTS];
+static CRASH_HANDLER_ON: AtomicBool = AtomicBool::new(false);
+thread_local! {
+    static CRASH_SLOT: std::cell::Cell<usize> = const { std::cell::Cell::new(usize::MAX) };
+}
+
+pub fn crash_slot_enter(slot: usize) {
+    CRASH_SLOT.with(|c| c.set(slot % MAX_SLOTS));
+    #[cfg(all(unix, not(miri)))]
+    if CRASH_HANDLER_ON.load(Ordering::Relaxed) {
+        unsafe {
+        // handlers run on their own stack so that a stack overflow is still reported
+        let size = 64 * 1024;
+        let stack = Box::leak(vec![0u8; size].into_boxed_slice());
+        let ss = libc::stack_t { ss_sp: stack.as_mut_ptr() as *mut libc::c_void, ss_flags: 0, ss_size: size };
+            libc::sigaltstack(&ss, std::ptr::null_mut());
+        }
+    }
+}
+
+pub fn crash_slot_set(seed: u64, index_plus_one: u64) {
+    let slot = CRASH_SLOT.with(|c| c.get());
+    if slot < MAX_SLOTS {
+        CRASH_SLOT_SEED[slot].store(seed, Ordering::Relaxed);
+        CRASH_SLOT_INDEX[slot].store(index_plus_one, Ordering::Relaxed);
+    }
+}
+
+#[cfg(all(unix, not(miri)))]
+extern "C" fn crash_handler(sig: libc::c_int) {
+    // async-signal-safe: no allocation, only write(2) and _exit
+    fn put(buf: &mut [u8; 160], n: &mut usize, s: &[u8]) {
+        for &b in s {
+            if *n < buf.len() {
+                buf[*n] = b;
+                *n += 1;
+            }
+        }
+    }
+    fn put_num(buf: &mut [u8; 160], n: &mut usize, mut v: u64) {
+        let mut tmp = [0u8; 20];
+        let mut k = 0;
+        if v == 0 {
+            tmp[0] = b'0';
+            k = 1;
+        }
+        while v > 0 {
+            tmp[k] = b'0' + (v % 10) as u8;
+            v /= 10;
+            k += 1;
+        }
+        while k > 0 {
+            k -= 1;
+            put(buf, n, &tmp[k..k + 1]);
+        }
+    }
+    let slot = CRASH_SLOT.with(|c| c.get());
+    let mut buf = [0u8; 160];
+    let mut n = 0;
+    put(&mut buf, &mut n, b"\nTW2SIM-CRASH signal=");
+    put_num(&mut buf, &mut n, sig as u64);
+    if slot < MAX_SLOTS && CRASH_SLOT_INDEX[slot].load(Ordering::Relaxed) > 0 {
+        put(&mut buf, &mut n, b" seed=");
+        put_num(&mut buf, &mut n, CRASH_SLOT_SEED[slot].load(Ordering::Relaxed));
+        put(&mut buf, &mut n, b" run_index=");
+        put_num(&mut buf, &mut n, CRASH_SLOT_INDEX[slot].load(Ordering::Relaxed) - 1);
+    } else {
+        put(&mut buf, &mut n, b" outside-any-run");
+    }
+    put(&mut buf, &mut n, b"\n");
+    unsafe {
+        libc::write(2, buf.as_ptr() as *const libc::c_void, n);
+        libc::_exit(CRASH_EXIT);
+    }
+}
+
+/// Installed in the child process only (not under a sanitizer or Miri, which report in their own way).
+pub fn install_crash_handler() {
+    CRASH_HANDLER_ON.store(true, Ordering::Relaxed);
+    #[cfg(all(unix, not(miri)))]
+    unsafe {
+        for sig in [libc::SIGABRT, libc::SIGSEGV, libc::SIGBUS, libc::SIGILL, libc::SIGFPE] {
+            let mut sa: libc::sigaction = std::mem::zeroed();
+            sa.sa_sigaction = crash_handler as *const () as usize;
+            sa.sa_flags = libc::SA_ONSTACK;
+            libc::sigemptyset(&mut sa.sa_mask);
+            libc::sigaction(sig, &sa, std::ptr::null_mut());
+        }
+    }
+}
+
+fn child_crashes(exe: &Path, prop: &str, file: &Path) -> Option<i32> {
+    let out = std::process::Command::new(exe)
+        .arg(prop)
+        .arg("--replay")
+        .arg(file)
+        .arg("--quiet")
+        .env("TW2SIM_CHILD", "1")
+        .output()
+        .ok()?;
+    crash_signal_of(&out.status, &String::from_utf8_lossy(&out.stderr))
+}
+
+/// Some(signal) if the process ended in a hard crash.
+pub fn crash_signal_of(status: &std::process::ExitStatus, stderr: &str) -> Option<i32> {
+    if status.code() == Some(CRASH_EXIT) {
+        let sig = stderr
+            .lines()
+            .rev()
+            .find_map(|l| l.strip_prefix("TW2SIM-CRASH signal=").and_then(|r| r.split_whitespace().next().and_then(|x| x.parse().ok())))
+            .unwrap_or(0);
+        return Some(sig);
+    }
+    #[cfg(unix)]
+    {
+        use std::os::unix::process::ExitStatusExt;
+        if let Some(s) = status.signal() {
+            return Some(s);
+        }
+    }
+    None
+}
+
+/// Parent side: the batch child died in run (`seed`, `index`). Builds, minimises and verifies the replay.
+pub fn handle_crash<E: Engine>(e: &E, opts: &BatchOpts, seed: u64, index: u64, signal: i32) -> i32 {
+    let prop = e.property();
+    let exe = std::env::current_exe().unwrap();
+    let case = e.generate(seed, opts.tier);
+    let mut sig: Sig = Sig::new();
+    sig.insert("class".into(), "process-crash".into());
+    sig.insert("signal".into(), signal.to_string());
+    let path = replay_path(prop, seed, &sig);
+    let _ = std::fs::create_dir_all(path.parent().unwrap());
+    let cand = path.with_extension("candidate.json");
+    let write = |c: &Case<E::Cfg, E::Op>, p: &Path, obs: &str, orig: usize| {
+        let rf = ReplayFile {
+            engine: e.engine_name().into(),
+            property: prop.into(),
+            seed,
+            signature: sig.clone(),
+            observation: obs.into(),
+            original_ops: orig,
+            case: serde_json::to_value(c).unwrap(),
+        };
+        std::fs::write(p, serde_json::to_string_pretty(&rf).unwrap()).is_ok()
+    };
+    let crashes = |c: &Case<E::Cfg, E::Op>| -> bool { write(c, &cand, "", 0) && child_crashes(&exe, prop, &cand).is_some() };
+    if !crashes(&case) {
+        let _ = std::fs::remove_file(&cand);
+        eprintln!("HARNESS-ERROR: the batch crashed (signal {}) in run seed={} index={}, but that run alone does not crash in a fresh process", signal, seed, index);
+        return 2;
+    }
+    let deadline = Instant::now() + Duration::from_secs(if opts.tier == Tier::Quick { 30 } else { 90 });
+    let small = shrink_with(e, &case, &crashes, deadline);
+    let _ = std::fs::remove_file(&cand);
+    let obs = format!("the process running the simulation was killed by signal {} (abort / memory fault) inside the code under test", signal);
+    if !write(&small, &path, &obs, case.ops.len()) {
+        eprintln!("HARNESS-ERROR: cannot write replay {}", path.display());
+        return 2;
+    }
+    if child_crashes(&exe, prop, &path).is_none() {
+        eprintln!("HARNESS-ERROR: replay {} did not crash again in a fresh process", path.display());
+        return 2;
+    }
+    println!("violation: class=process-crash seed={} run_index={} ops {} -> {} : {}", seed, index, case.ops.len(), small.ops.len(), obs);
+    println!("VIOLATION property={} replay={}", prop, path.display());
+    if opts.write_evidence {
+        let info = e.info();
+        let ev = json!({
+            "property_id": prop,
+            "tier": opts.tier.name(),
+            "seed": opts.seed,
+            "level": "exploration",
+            "coverage": {
+                "evaluations": index + 1,
+                "distinct_nontrivial": 0,
+                "rule": info.rule,
+                "samples": [ { "run_index": index, "seed": seed, "outcome": "process crash", "cfg": serde_json::to_value(&small.cfg).unwrap_or(Value::Null), "ops": small.ops.iter().take(40).map(|o| serde_json::to_value(o).unwrap_or(Value::Null)).collect::<Vec<_>>() } ],
+                "note": "the batch process was killed by a signal inside the code under test; counters of the interrupted batch are lost, evaluations is a lower bound",
+                "components": { "real": info.real, "stub": info.stub },
+            },
+            "assumptions": info.assumptions,
+            "wall_s": 0.0,
+            "violations": 1,
+        });
+        let p = Path::new(VERIF_DIR).join("evidence").join(format!("{}.json", prop));
+        let _ = std::fs::create_dir_all(p.parent().unwrap());
+        let _ = std::fs::write(&p, serde_json::to_string_pretty(&ev).unwrap());
+    }
+    1
+}
+
+// ---------------------------------------------------------------------------
 // Per-run context
 
 pub struct Ctx {
@@ -339,6 +542,16 @@ pub fn shrink<E: Engine>(
             None => false,
         }
     };
+    shrink_with(e, case, &still_fails, deadline)
+}
+
+/// ddmin with an arbitrary oracle (in-process signature match, or "a fresh process crashes").
+pub fn shrink_with<E: Engine>(
+    e: &E,
+    case: &Case<E::Cfg, E::Op>,
+    still_fails: &dyn Fn(&Case<E::Cfg, E::Op>) -> bool,
+    deadline: Instant,
+) -> Case<E::Cfg, E::Op> {
     let mut cur = case.clone();
     // 1. ddmin: remove chunks of decreasing size
     let mut chunk = (cur.ops.len() / 2).max(1);
@@ -507,6 +720,7 @@ pub fn run_batch<E: Engine>(e: &E, opts: &BatchOpts) -> i32 {
             let done_workers = &done_workers;
             let info = &info;
             handles.push(scope.spawn(move || {
+                crash_slot_enter(w);
                 let mut agg = WorkerAgg {
                     counters: BTreeMap::new(),
                     states: BTreeSet::new(),
@@ -538,10 +752,12 @@ pub fn run_batch<E: Engine>(e: &E, opts: &BatchOpts) -> i32 {
                     let seed = run_seed(opts.seed, e.engine_name(), prop, i);
                     cur_start[w].store(start.elapsed().as_millis() as u64, Ordering::Relaxed);
                     cur_index[w].store(i + 1, Ordering::Relaxed);
+                    crash_slot_set(seed, i + 1);
                     let case = e.generate(seed, opts.tier);
                     let mut ctx = Ctx::new(false);
                     let res = e.execute(&case, &mut ctx);
                     cur_index[w].store(0, Ordering::Relaxed);
+                    crash_slot_set(0, 0);
                     agg.runs += 1;
                     agg.ops += ctx.ops_executed;
                     agg.sim_usec += ctx.sim_usec;
@@ -888,7 +1104,10 @@ pub fn replay<E: Engine>(e: &E, path: &Path, quiet: bool) -> i32 {
         }
     };
     let mut ctx = Ctx::new(!quiet);
+    crash_slot_enter(0);
+    crash_slot_set(rf.seed, 1);
     let res = e.execute(&case, &mut ctx);
+    crash_slot_set(0, 0);
     if !quiet {
         for l in &ctx.log {
             println!("  {}", l);
